@@ -32,9 +32,9 @@ LEVELS = {'C08': 'exploration', 'C19': 'exploration'}
 PROBES = {
     'C08': ['framing.length', 'framing.chunked', 'framing.close', 'framing.none', 'truncated', 'surplus', 'keepalive_reuse', 'interim_response', 'ignore_length_option',
             'nobody_with_length', 'head_request', 'http10', 'lf_only', 'trailers', 'overrun_branch', 'metamorphic',
-            'cl_and_te', 'seg.bytes', 'seg.boundary', 'one_stream_object_for_all_exchanges'],
+            'cl_and_te', 'seg.bytes', 'seg.boundary', 'one_stream_object_for_all_exchanges', 'session_timeout_option'],
     'C19': ['coding.gzip', 'coding.deflate-zlib', 'coding.deflate-raw', 'coding.identity', 'first_piece_1byte',
-            'coded_truncated', 'coded_corrupt', 'metamorphic', 'framing.chunked', 'framing.close', 'one_stream_object_for_all_exchanges', 'surplus'],
+            'coded_truncated', 'coded_corrupt', 'metamorphic', 'framing.chunked', 'framing.close', 'one_stream_object_for_all_exchanges', 'surplus', 'ignore_length_option', 'coded_body_cut_by_peer'],
 }
 _COMMON = {
     'components': {'real': ['wpull.protocol.http.client.Client/Session', 'wpull.protocol.http.stream.Stream',
@@ -114,7 +114,14 @@ class _ConnHandler:
                     conn.finish()
                 h.sent.append((sent, resp.truncate_kind))
             else:
-                conn.send(wire, cuts=resp.hints + [len(resp.message)])
+                stall = getattr(resp, 'stall', None)
+                if stall:
+                    # part of the body, a pause, the rest (a slow server; --session-timeout bounds the whole download)
+                    k = len(resp.head) + stall[0]
+                    conn.send(wire[:k], cuts=resp.hints)
+                    conn.send(wire[k:], delay=stall[1])
+                else:
+                    conn.send(wire, cuts=resp.hints + [len(resp.message)])
                 if resp.close_after:
                     # the FIN may reach the client after it has gone on to its next request: the response said so beforehand
                     conn.finish(delay=h.tape.choice((0.0, 0.0, 0.3, 4.0), 'close.delay') if close_announced(resp) else 0.0)
@@ -130,7 +137,7 @@ class H:
     pass
 
 
-def execute(tape, script, r, seg_mode=None, vary_latency=True, timeout=60.0, ignore_length=False, direct_stream=False):
+def execute(tape, script, r, seg_mode=None, vary_latency=True, timeout=60.0, ignore_length=False, direct_stream=False, session_timeout=None):
     """Run the script through the real client. Returns list of outcome dicts."""
     h = H()
     h.script = script
@@ -173,7 +180,7 @@ def execute(tape, script, r, seg_mode=None, vary_latency=True, timeout=60.0, ign
                         out['status'] = response.status_code
                         out['reason'] = response.reason
                         out['version'] = response.version
-                        yield from session.download(f)
+                        yield from session.download(f, duration_timeout=session_timeout)
                         out['fields'] = [(n.lower(), v) for n, v in response.fields.get_all()]
                         out['ok'] = True
                 except (NetworkError, ProtocolError, ServerError, SSLVerificationError) as e:
@@ -285,6 +292,12 @@ def judge(prop, r, script, outcomes, h, label=''):
             break
         if resp.desc.get('interim'):
             r.probes['interim_response'] += 1
+        if getattr(resp, 'stall', None) and resp.stall[2]:
+            # the body stalls for longer than --session-timeout allows: the download must end as an error, not as what had arrived
+            if o.get('ok'):
+                r.violate(prop, 'session-timeout-ignored', shape, 'exchange %d %s: the body paused for %.1fs with a session timeout of %.1fs, yet the '
+                          'download was reported successful with %d of %d body bytes%s' % (i, resp.desc, resp.stall[1], resp.stall[3], len(o['body']), len(ref.payload or b''), label))
+            break       # the connection was dropped in mid-message: nothing further is comparable
         if ref.complete and ref.payload is not None:
             # must succeed with exactly the reference result
             if not o.get('ok'):
@@ -320,6 +333,10 @@ def judge(prop, r, script, outcomes, h, label=''):
             # (a cut inside the trailer section - after the last chunk, before the closing empty line - is a message cut
             # short like any other: the trailer fields, part of the message, are incomplete)
             lenient = (endkind == 'rst' and ref.error == 'incomplete' and ref.framing != 'close')
+            if o.get('ok') and not lenient and prop == 'C19' and coded:
+                r.violate(prop, 'truncated-coded-accepted', '%s:%s:%s' % (resp.coding, ref.framing, endkind),
+                          'exchange %d %s: the connection was cut inside the coded body but %d bytes were handed over as a successful download%s'
+                          % (i, resp.desc, len(o['body']), label))
             if o.get('ok') and not lenient and prop == 'C08':
                 r.violate(prop, 'truncated-accepted', '%s:%s' % (shape, ref.error),
                           'exchange %d %s: message truncated (%s) but reported as success with %d body bytes%s'
@@ -413,6 +430,23 @@ def run(tape, prop, tier):
             if last.framing == 'length' and last.coded and len(last.coded) % 4096 and last.truncate_at is None:
                 last.surplus = tape.choice((b'\r\n', b'X', b'garbage after the message'), 'c19.surplus.kind')
                 last.desc['surplus'] = len(last.surplus)
+        # --ignore-length: a length-delimited coded body is read until the connection closes; when the peer cuts the connection
+        # inside the coded stream (FIN or RST) the decoder has not seen its end: an error, never partial content
+        ignore_length = tape.chance(1, 8, 'c19.ignore_length')
+        if ignore_length:
+            r.probes['ignore_length_option'] += 1
+            for x in script:
+                x.close_after = True        # the request says 'Connection: close' under this option: the server ends every response with a close
+                if x.surplus:
+                    x.surplus = b''         # (under this option whatever comes before the close IS the body)
+                    x.desc['surplus'] = 0
+            last = script[-1]
+            if last.framing == 'length' and last.coding not in ('identity', 'gzip-identity') and len(last.coded) > 12 and not last.surplus and tape.chance(2, 3, 'c19.cut'):
+                last.truncate_at = len(last.head) + 1 + tape.draw(len(last.body_wire) - 2, 'c19.cut.at')
+                last.truncate_kind = tape.choice(('rst', 'fin'), 'c19.cut.kind')
+                last.desc.update(truncate_at=last.truncate_at, truncate_kind=last.truncate_kind)
+                r.probes['coded_body_cut_by_peer'] += 1
+                r.faults['truncate.' + last.truncate_kind] += 1
         if faults_on:
             cands = [x for x in script if x.coding not in ('identity', 'gzip-identity')]
             if cands and damage_coded(tape, cands[tape.draw(len(cands), 'damage.which')]):
@@ -430,10 +464,25 @@ def run(tape, prop, tier):
             script.append(httpgen.gen_response(tape, method=method, allow_truncate=faults_on, allow_surplus=faults_on, allow_interim=(prop == 'C08'),
                                                allow_length_framing=not ignore_length))
         r.sub = 'faults' if faults_on else 'fault-free'
-    direct_stream = tape.chance(1, 5, 'direct_stream')
+    session_timeout = None
+    if prop == 'C08' and tape.chance(1, 8, 'session_timeout'):
+        # --session-timeout: one response pauses inside its body, for less or for more than the limit
+        cands = [x for x in script if x.truncate_at is None and len(x.body_wire) >= 2 and not x.desc.get('interim')]
+        if cands and all(len(x.wire) <= 100_000 for x in script):
+            # (the limit leaves room for the slowest delivery the transport draws - 2 s latency, 0.2 s between pieces - and the
+            # long pause stays below the 60 s read timeout of the connection, so that it is this limit that fires)
+            session_timeout = 30.0
+            x = cands[tape.draw(len(cands), 'session_timeout.which')]
+            over = tape.chance(2, 3, 'session_timeout.over')
+            x.stall = (1 + tape.draw(len(x.body_wire) - 1, 'session_timeout.at'), 45.0 if over else 8.0, over, session_timeout)
+            x.desc['stall'] = x.stall
+            r.probes['session_timeout_option'] += 1
+            if over:
+                r.faults['body_stalls_beyond_session_timeout'] += 1
+    direct_stream = tape.chance(1, 5, 'direct_stream') and session_timeout is None
     if direct_stream:
         r.probes['one_stream_object_for_all_exchanges'] += 1
-    outcomes, h = execute(tape, script, r, ignore_length=(prop != 'C19' and ignore_length), direct_stream=direct_stream)
+    outcomes, h = execute(tape, script, r, ignore_length=ignore_length, direct_stream=direct_stream, session_timeout=session_timeout)
     judge(prop, r, script, outcomes, h)
     # metamorphic re-runs: same script, fixed segmentations, no latency variation
     meta = tape.chance(1, 4, 'metamorphic')
@@ -441,7 +490,7 @@ def run(tape, prop, tier):
         r.probes['metamorphic'] += 1
         results = []
         for mode in (0, 4, 3):
-            o2, h2 = execute(tape, script, r, seg_mode=mode, vary_latency=False, ignore_length=(prop != 'C19' and ignore_length), direct_stream=direct_stream)
+            o2, h2 = execute(tape, script, r, seg_mode=mode, vary_latency=False, ignore_length=ignore_length, direct_stream=direct_stream, session_timeout=session_timeout)
             judge(prop, r, script, o2, h2, label=' [metamorphic re-run, segmentation mode %d]' % mode)
             results.append([(o.get('status'), o.get('body'), o.get('error')) for o in o2])
         base = [(o.get('status'), o.get('body'), o.get('error')) for o in outcomes]
